@@ -283,3 +283,24 @@ func H_C18_two_events() {
 		verifReach("C18.two.end")
 	}
 }
+
+// which event types get signed: decided with real strings (cvc5) so that case variants are in the input space
+func H_C18_sign_listing() {
+	src := "src"
+	calls := 0
+	f := &FormatterFilter{Source: &url.URL{Path: src}, Signer: func(ctx context.Context, b []byte) (string, error) { calls++; return "sig", nil }}
+	listedType := nondetString()
+	f.SignEventTypes = []string{listedType}
+	t := eventlogger.EventType(nondetString())
+	verifAssume(t != "")
+	e := &eventlogger.Event{Type: t, Formatted: map[string][]byte{}, Payload: &cWithID{id: "id"}}
+	_, err := f.Process(context.Background(), e)
+	if err == nil {
+		if string(t) == listedType {
+			verifAssert(calls == 1, "C18.listing.listed-type-signed")
+		} else {
+			verifAssert(calls == 0, "C18.listing.unlisted-type-never-signed")
+		}
+		verifReach("C18.listing.end")
+	}
+}
